@@ -424,7 +424,7 @@ def doc_product_programs():
         "parameter": "module M\ninterface Host {{ hostop(\n{doc}p: bool) }}\n",
     }
     msgs = ["text", "{@link Host}", "x {@link Nope} y", "{@link Host} {@link Host::a} {@link ::M::Host}", "", "{@link", "{@link }", "{@see Host}"]
-    tags = ["%s", "@param p: %s", "@param nope: %s", "@returns: %s", "@returns a: %s", "@returns nope: %s", "@see Host", "@see Nope", "@param p\n///   %s",
+    tags = ["@param", "@see", "@returns", "@param p", "@", "@param :", "@see ::", "@returns :", "%s", "@param p: %s", "@param nope: %s", "@returns: %s", "@returns a: %s", "@returns nope: %s", "@see Host", "@see Nope", "@param p\n///   %s",
             "@returns\n///     %s\n/// @see Host", "@unknown %s"]
     for pname, tpl in positions.items():
         for tag in tags:
@@ -434,3 +434,34 @@ def doc_product_programs():
                 yield (pname, tag, m), tpl.format(doc=doc)
                 # two tags of the same kind, and a tag after an overview with a link
                 yield (pname, tag, m, "x2"), tpl.format(doc="/// intro {@link Host}\n" + doc + doc)
+
+
+def eol_defect_programs():
+    """A construct that is cut off exactly at the end of its line (operand missing, bracket / literal / comment left open) x how
+    the line ends x where the line stands. Spans of the resulting diagnostics start or end at the line terminator."""
+    doc = ["/// @param", "/// @see", "/// @returns", "/// @param p", "/// {@link", "/// {@link Host", "/// x {@link Host::", "/// @", "///",
+           "/// @param p:", "/// {@", "/// {", "/// }", "/// @see Host::", "//// four", "/// text \\"]
+    directive = ["#define", "#undef", "#if", "#if A &&", "#if A ||", "#if !", "#if (", "#if (A", "#elif", "#else x", "#endif x", "#", "#if A)",
+                 "# define", "#define A B", "#if A && !", "#nope"]
+    code = ["struct", "struct Host {", "struct Host { a:", "struct Host { a: Sequence<", "typealias X =", "[foo(\"abc", "[foo(", "[", "[[", "/* open",
+            "interface Host { op(", "interface Host { op() ->", "enum Host :", "enum Host { A =", "tag(", "struct Host { tag(1", "custom",
+            "module", "Host::", "::", "struct Host { a: bool?", "enum Host { A = 0x", "struct Host { a: Dictionary<bool,", "\\", "struct \\"]
+    eols = [("lf", "\n"), ("crlf", "\r\n"), ("cr", "\r"), ("eof", ""), ("space-lf", " \n"), ("tab-crlf", "\t\r\n"), ("crcrlf", "\r\r\n"),
+            ("ls", "\u2028"), ("nel", "\u0085\n"), ("wide-crlf", " \u4e2d\r\n")]
+    for ename, eol in eols:
+        nl = "\r\n" if "crlf" in ename else "\n"
+        for d in doc:
+            for ctxname, before, after in (("struct", "module M" + nl, "struct Host {{ a: bool }}" + nl),
+                                           ("op", "module M" + nl + "interface Host {{" + nl, "hostop(p: bool) -> bool" + nl + "}}" + nl),
+                                           ("field", "module M" + nl + "struct Host {{" + nl + "    ", "a: bool" + nl + "}}" + nl),
+                                           ("last", "module M" + nl + "struct Host {{}}" + nl, "")):
+                yield ("doc", d, ename, ctxname), before.replace("{{", "{").replace("}}", "}") + d + eol + after.replace("{{", "{").replace("}}", "}")
+        for d in directive:
+            for ctxname, before, after in (("first", "", "module M" + nl + "struct Host {}" + nl), ("middle", "module M" + nl, "struct Host {}" + nl),
+                                           ("indented", "module M" + nl + "  \t", "struct Host {}" + nl), ("last", "module M" + nl + "struct Host {}" + nl, ""),
+                                           ("in-if", "module M" + nl + "#if X" + nl, "#endif" + nl)):
+                yield ("directive", d, ename, ctxname), before + d + eol + after
+        for d in code:
+            for ctxname, before, after in (("top", "module M" + nl, ""), ("top-followed", "module M" + nl, "struct Other {}" + nl),
+                                           ("no-module", "", "")):
+                yield ("code", d, ename, ctxname), before + d + eol + after
